@@ -199,6 +199,19 @@ Theorem C11_bad_padding_rejected : forall hrp s h ver data spec,
 Proof. exact bad_padding_rejected. Qed.
 Print Assumptions C11_bad_padding_rejected.
 
+(* strings are lists of code points over the FULL unicode range (N): any code point outside 33..126 anywhere in the
+   string — controls, space, DEL, every non-ASCII character, those whose lower()/upper() image is an ASCII letter
+   (U+212A KELVIN SIGN, U+017F LONG S, ...) included — is rejected: the range test runs on the string as given,
+   before any case conversion *)
+Theorem C11_unprintable_rejected : forall (s : pystr) max_length (c : N), In c s -> (c < 33 \/ 126 < c)%N ->
+  bech32_decode_max s max_length = None.
+Proof. exact unprintable_rejected. Qed.
+Print Assumptions C11_unprintable_rejected.
+
+Example C11_kelvin_sign_rejected :   (* "A1" ++ [U+212A] ++ "QQQQQQ..." style: one non-ASCII code point *)
+  bech32_decode [65; 49; 8490; 81; 81; 81; 81; 81; 81]%N = None /\ decode [97]%N [65; 49; 8490; 81; 81; 81; 81; 81; 81]%N = None.
+Proof. vm_compute. split; reflexivity. Qed.
+
 Theorem C11_too_long_rejected : forall s max_length, max_length < Z.of_nat (length s) ->
   bech32_decode_max s max_length = None.
 Proof. exact too_long_rejected. Qed.
